@@ -408,10 +408,11 @@ func (env *Zlisp) ImportBaseTypes() {
 		sort.Strings(keys)
 		for _, k := range keys {
 			e := m[k]
-			if i == 1 {
+			if i == 1 && !e.hasShadowStruct && e.UserStructDefn == nil {
 				// MakeHash registers the type name of every hash it
 				// builds ("field", "hash", ...) in the process-wide
-				// registry. Such an entry, left behind by an earlier
+				// registry. Such an entry (no Go struct, no struct
+				// declaration behind it), left by an earlier
 				// interpreter, must not replace the builtin function
 				// of the same name in this one.
 				if num, found := env.symtable[e.RegisteredName]; found {
